@@ -80,7 +80,7 @@ theorem shift_zero (i : Inst) : i.shift 0 = i := by
   | cons p ps ih => simp only [List.map_cons, ih]
 
 /-- every call site hands the increment on (re-checked against the source on every run) -/
-def allOn : Threading := ⟨true, true, true, true, true, true, true, true, true, true, true⟩
+def allOn : Threading := ⟨true, true, true, true, true, true, true, true, true, true, true, true, true, true⟩
 theorem threading_all : threading = allOn := rfl
 
 theorem on_instAttr : allOn.instAttr = true := rfl
@@ -94,6 +94,9 @@ theorem on_selectContent : allOn.selectContent = true := rfl
 theorem on_selectRef : allOn.selectRef = true := rfl
 theorem on_complexPart : allOn.complexPart = true := rfl
 theorem on_refAdd : allOn.refAdd = true := rfl
+theorem on_genSelectRef : allOn.genSelectRef = true := rfl
+theorem on_genSelectNested : allOn.genSelectNested = true := rfl
+theorem on_genSelectAggr : allOn.genSelectAggr = true := rfl
 
 theorem thr_true (k : Int) : thr true k = k := rfl
 
@@ -105,13 +108,13 @@ theorem resolveValT_closed (ns : List Node) (k : Int) (v : Val) (h : ∀ r ∈ v
   | null => rfl | derived => rfl | tok _ => rfl
   | ref r =>
     have : (find ns (r + k)).isSome = true := find_isSome.mpr (h r (by simp [Val.refs]))
-    cases c <;> simp [resolveValT, on_instAttr, on_attrRef, on_attrAggr, on_attrSelect, on_redef, on_aggrEntityElem, on_aggrSelectElem, on_selectContent, on_selectRef, on_complexPart, on_refAdd, thr_true, this, Val.mapRefs]
+    cases c <;> simp [resolveValT, on_instAttr, on_attrRef, on_attrAggr, on_attrSelect, on_redef, on_aggrEntityElem, on_aggrSelectElem, on_selectContent, on_selectRef, on_complexPart, on_refAdd, on_genSelectRef, on_genSelectNested, on_genSelectAggr, thr_true, this, Val.mapRefs]
   | typed n v ih =>
-    simp only [resolveValT, Val.mapRefs, on_instAttr, on_attrRef, on_attrAggr, on_attrSelect, on_redef, on_aggrEntityElem, on_aggrSelectElem, on_selectContent, on_selectRef, on_complexPart, on_refAdd, thr_true]
+    simp only [resolveValT, Val.mapRefs, on_instAttr, on_attrRef, on_attrAggr, on_attrSelect, on_redef, on_aggrEntityElem, on_aggrSelectElem, on_selectContent, on_selectRef, on_complexPart, on_refAdd, on_genSelectRef, on_genSelectNested, on_genSelectAggr, thr_true]
     rw [ih (by simpa [Val.refs] using h)]
   | aggr e ih =>
     have := ih (by simpa [Val.refs] using h) .inAggr
-    cases c <;> (simp only [resolveValT, Val.mapRefs, on_instAttr, on_attrRef, on_attrAggr, on_attrSelect, on_redef, on_aggrEntityElem, on_aggrSelectElem, on_selectContent, on_selectRef, on_complexPart, on_refAdd, thr_true]; rw [this])
+    cases c <;> (simp only [resolveValT, Val.mapRefs, on_instAttr, on_attrRef, on_attrAggr, on_attrSelect, on_redef, on_aggrEntityElem, on_aggrSelectElem, on_selectContent, on_selectRef, on_complexPart, on_refAdd, on_genSelectRef, on_genSelectNested, on_genSelectAggr, thr_true]; rw [this])
   | nil => rfl
   | cons a b iha ihb =>
     simp only [resolveValT, Val.mapRefs]
@@ -121,9 +124,12 @@ theorem resolveValT_closed (ns : List Node) (k : Int) (v : Val) (h : ∀ r ∈ v
     cases p with
     | select =>
       have := ih (by simpa [Val.refs] using h) .inSelect
-      cases c <;> (simp only [resolveValT, Val.mapRefs, on_instAttr, on_attrRef, on_attrAggr, on_attrSelect, on_redef, on_aggrEntityElem, on_aggrSelectElem, on_selectContent, on_selectRef, on_complexPart, on_refAdd, thr_true]; rw [this])
+      cases c <;> (simp only [resolveValT, Val.mapRefs, on_instAttr, on_attrRef, on_attrAggr, on_attrSelect, on_redef, on_aggrEntityElem, on_aggrSelectElem, on_selectContent, on_selectRef, on_complexPart, on_refAdd, on_genSelectRef, on_genSelectNested, on_genSelectAggr, thr_true]; rw [this])
+    | nested =>
+      simp only [resolveValT, Val.mapRefs, on_selectContent, on_genSelectNested, thr_true]
+      rw [ih (by simpa [Val.refs] using h)]
     | redecl =>
-      simp only [resolveValT, Val.mapRefs, on_instAttr, on_attrRef, on_attrAggr, on_attrSelect, on_redef, on_aggrEntityElem, on_aggrSelectElem, on_selectContent, on_selectRef, on_complexPart, on_refAdd, thr_true]
+      simp only [resolveValT, Val.mapRefs, on_instAttr, on_attrRef, on_attrAggr, on_attrSelect, on_redef, on_aggrEntityElem, on_aggrSelectElem, on_selectContent, on_selectRef, on_complexPart, on_refAdd, on_genSelectRef, on_genSelectNested, on_genSelectAggr, thr_true]
       rw [ih (by simpa [Val.refs] using h)]
 
 theorem resolveVal_closed (ns : List Node) (k : Int) (v : Val) (h : ∀ r ∈ v.refs, r + k ∈ ids ns) (c : Ctx) :
